@@ -50,10 +50,10 @@ def check(ctx):
                 ctx.violation(ob, "R1.foreign-write", q, "%s.%s %s" % (recv, attr, how), "foreign-write",
                               "%s of %s.%s outside the owning object: the counter=list induction only covers writes through self"
                               % (how, recv, attr), loc(node))
-            elif attr == "all_individuals" and how != "append" and fn.name != "__init__":
+            elif attr == "all_individuals" and how != "append" and "__init__" not in rules.effective_names(P, ci, fn):
                 ctx.violation(ob, "R1.exit-append-only", q, "%s.%s %s" % (recv, attr, how), "not-append",
                               "the exit list must only grow (a customer at the exit never reappears)", loc(node))
-            elif attr == "individuals" and how in ("assign", "del") and fn.name != "__init__":
+            elif attr == "individuals" and how in ("assign", "del") and "__init__" not in rules.effective_names(P, ci, fn):
                 ctx.violation(ob, "R1.rebind", q, "%s.%s %s" % (recv, attr, how), "rebind",
                               "individuals re-bound outside __init__", loc(node))
             elif attr == "individuals" and how in rules.OTHER_MUT | {"insert", "pop"}:
@@ -70,12 +70,13 @@ def check(ctx):
     # -- every accept call site is covered by one of the roots above
     ob = ctx.ob("R3.sites", "every accept(...) call site lies in a checked root (release, renege, arrival hand-over)")
     sites = rules.calls_named(P, "accept")
-    ctx.floor("accept call sites", len(sites), 5)
     allowed = {"release", "renege", "decide_baulk", "release_individual", "send_individual"}
+    ctx.floor("accept call sites", len(sites), 3)
+    ctx.floor("hand-over roots with an accept call site", len(set().union(*[rules.effective_names(P, ci, fn) & allowed for ci, fn, call in sites])) if sites else 0, 5)
     for ci, fn, call in sites:
         q = rules.qual(ci, fn)
         ob.seen(q + ":" + unparse(call))
-        if fn.name not in allowed and not _reachable_helper(P, ci, fn, allowed):
+        if not (rules.effective_names(P, ci, fn) & allowed) and not _reachable_helper(P, ci, fn, allowed):
             ctx.violation(ob, "R3.unchecked-accept", q, unparse(call), "accept-outside-roots",
                           "accept() called from a method that is not part of a checked hand-over root: the token may not be in hand",
                           loc(call))
@@ -269,10 +270,52 @@ def ids(ctx, P, views, iters):
                if ci is not None and ci.name in fam]
     for ci, fn, n, recv, how in writers:
         ob.seen(rules.qual(ci, fn) + ":" + how)
-        if fn.name not in ("__init__", "have_event"):
+        if not (rules.effective_names(P, ci, fn) & {"__init__", "have_event"}):
             ctx.violation(ob, "ID.writer", rules.qual(ci, fn), "%s.number_of_individuals %s" % (recv, how), "extra-writer",
                           "the creation counter (id source) is written outside have_event/__init__", loc(n))
     ctx.floor("writers of the creation counter", len(writers), 2)
+
+
+def _is_flatten(fl):
+    """fl(L) returns the concatenation, in order, of all sub-lists of L: accumulator loop (+=, = +, extend, nested append), nested comprehension, sum(L, []) or chain"""
+    ps = [a.arg for a in fl.args.args]
+    if len(ps) != 1:
+        return False
+    L = ps[0]
+    body = [x for x in fl.body if not isinstance(x, ast.Pass) and not (isinstance(x, ast.Expr) and isinstance(x.value, ast.Constant))]
+    if len(body) == 1 and isinstance(body[0], ast.Return) and body[0].value is not None:
+        v = body[0].value
+        if isinstance(v, ast.ListComp) and len(v.generators) == 2:
+            g0, g1 = v.generators
+            return (unparse(g0.iter) == L and not g0.ifs and not g1.ifs and isinstance(g0.target, ast.Name) and unparse(g1.iter) == g0.target.id
+                    and isinstance(g1.target, ast.Name) and unparse(v.elt) == g1.target.id)
+        txt = unparse(v).replace(" ", "")
+        return txt in ("sum(%s,[])" % L, "list(chain.from_iterable(%s))" % L, "list(itertools.chain.from_iterable(%s))" % L, "list(chain(*%s))" % L, "list(itertools.chain(*%s))" % L)
+    if len(body) != 3:
+        return False
+    init, loop, ret = body
+    if not (isinstance(init, ast.Assign) and len(init.targets) == 1 and isinstance(init.targets[0], ast.Name) and unparse(init.value) in ("[]", "list()")):
+        return False
+    acc = init.targets[0].id
+    if not (isinstance(ret, ast.Return) and unparse(ret.value) == acc):
+        return False
+    if not (isinstance(loop, ast.For) and unparse(loop.iter) == L and isinstance(loop.target, ast.Name) and not loop.orelse):
+        return False
+    x = loop.target.id
+    lb = [y for y in loop.body if not isinstance(y, ast.Pass)]
+    if len(lb) != 1:
+        return False
+    st = lb[0]
+    if isinstance(st, ast.AugAssign):
+        return isinstance(st.op, ast.Add) and unparse(st.target) == acc and unparse(st.value) in (x, "list(%s)" % x)
+    if isinstance(st, ast.Assign):
+        return len(st.targets) == 1 and unparse(st.targets[0]) == acc and unparse(st.value).replace(" ", "") in ("%s+%s" % (acc, x), "%s+list(%s)" % (acc, x))
+    if isinstance(st, ast.Expr):
+        return unparse(st.value).replace(" ", "") == "%s.extend(%s)" % (acc, x)
+    if isinstance(st, ast.For) and isinstance(st.target, ast.Name) and unparse(st.iter) == x and not st.orelse:
+        ib = [y for y in st.body if not isinstance(y, ast.Pass)]
+        return len(ib) == 1 and isinstance(ib[0], ast.Expr) and unparse(ib[0].value).replace(" ", "") == "%s.append(%s)" % (acc, st.target.id)
+    return False
 
 
 def index_agreement(ctx, P, views, iters):
@@ -367,11 +410,6 @@ def population_views(ctx, P, views):
     if fl is None:
         ctx.unrecognised("VIEWS: flatten_list not found")
     else:
-        from ..model import alpha
-        want = "def flatten_list(list_of_lists):\n    flat = []\n    for a_list in list_of_lists:\n        flat += a_list\n    return flat"
-        body = ast.FunctionDef(name=fl.name, args=fl.args, body=[x for x in fl.body if not isinstance(x, ast.Pass) and not (isinstance(x, ast.Expr) and isinstance(x.value, ast.Constant))],
-                               decorator_list=[], returns=None, type_comment=None, type_params=[], lineno=1, col_offset=0)
-        alt = want.replace("flat += a_list", "flat = flat + a_list")
         ob.ok("flatten_list")
-        if alpha(body) not in (alpha(want), alpha(alt)):
+        if not _is_flatten(fl):
             ctx.violation(ob, "R1.computed-view", "flatten_list", "flatten_list", "flatten-shape", "flatten_list must concatenate all sub-lists in order", loc(fl))
